@@ -11,7 +11,8 @@ ALL3V = ALL3 + ["stdv"]   # + the std build with the crate's fc-verif hook (inte
 COMMON_ASSUME = [
     "std::sync::{Mutex, Arc}, Waker/Wake plumbing, pin-project, ManuallyDrop/MaybeUninit, smallvec, "
     "fixedbitset, slab are modelled, not verified",
-    "multi-threaded wake-ups are linearised at the readiness mutex (DESIGN.md 2.3)",
+    "multi-threaded wake-ups are linearised at the readiness mutex (DESIGN.md 2.3); the `mt` profiles exercise that with "
+    "a second real thread that is inside the crate's wake path (lock held) while the polling thread carries on",
     "polling a combinator again after its final result is caller misuse and excluded",
 ]
 
